@@ -149,7 +149,7 @@ def gen_scenarios(work, module, consts, num, depth, seed, tag, prefix, timeout=6
         module = wrap
     cfg += "INVARIANT %s\nCHECK_DEADLOCK FALSE\n" % invariant
     rc, out, wall = tlc(work, module, cfg,
-                        ["-simulate", "num=%d" % num, "-depth", str(depth + 3), "-seed", str(seed)],
+                        ["-simulate", "num=%d" % (num * 3), "-depth", str(depth + 3), "-seed", str(seed)],
                         timeout, workers=1, tag=tag)
     if "Error:" in out:
         raise Infra("scenario generation failed (%s):\n%s" % (tag, out[-3000:]))
@@ -159,7 +159,10 @@ def gen_scenarios(work, module, consts, num, depth, seed, tag, prefix, timeout=6
             sc = json.loads(unq(m.group(1)))
         except Exception as e:  # noqa
             raise Infra("cannot parse generated scenario: %s" % e)
-        key = hashlib.sha1(json.dumps(sc, sort_keys=True).encode()).hexdigest()
+        # TLC's simulator revisits the tail of a behaviour: scenarios that differ only in
+        # their last two inputs count as one
+        st = sc.get("steps") or []
+        key = hashlib.sha1(json.dumps([sc.get("cfg"), sc.get("rt"), st[:max(1, len(st) - 2)]], sort_keys=True).encode()).hexdigest()
         if key in seen:
             continue
         seen.add(key)
